@@ -376,23 +376,38 @@ class PArrayIndex(Pattern):
     def __init__(self, list: Iterable, index: int):
         self.list = list
         self.index = index
+        self.exhausted = False
 
     def __repr__(self):
         return ("PArrayIndex(%s, %s)" % (self.list, self.index))
 
-    def __next__(self):
-        list = Pattern.value(self.list)
-        index = Pattern.value(self.index)
+    def reset(self):
+        super().reset()
+        self.exhausted = False
 
+    def __next__(self):
         #------------------------------------------------------------------
-        # null indices denote a rest -- so return a null value.
-        # (same behaviour as PDegree: a degree of None returns a rest.)
+        # once the index or the selected item has ended, the pattern has ended:
+        # another index must not bring it back to life (iterator protocol)
         #------------------------------------------------------------------
-        if index is None:
-            return None
-        else:
-            index = int(index)
-            return Pattern.value(list[index])
+        if self.exhausted:
+            raise StopIteration
+        try:
+            list = Pattern.value(self.list)
+            index = Pattern.value(self.index)
+
+            #------------------------------------------------------------------
+            # null indices denote a rest -- so return a null value.
+            # (same behaviour as PDegree: a degree of None returns a rest.)
+            #------------------------------------------------------------------
+            if index is None:
+                return None
+            else:
+                index = int(index)
+                return Pattern.value(list[index])
+        except StopIteration:
+            self.exhausted = True
+            raise
 
 class PDict(Pattern):
     """ PDict: Construct a pattern from a dict of arrays, or an array of dicts.
